@@ -20,6 +20,9 @@ import (
 	"sync"
 	"syscall"
 	"time"
+
+	"github.com/youzan/ZanRedisDB/snap"
+	"github.com/youzan/ZanRedisDB/wal"
 )
 
 // ---------------------------------------------------------------- build
@@ -544,6 +547,39 @@ func sortedKeysInt(m map[string]int) []string {
 	}
 	sort.Strings(ks)
 	return ks
+}
+
+// diagnose reads (never writes) the node's raft directories the way startRaft does, for the
+// report of a node that did not come back: startRaft returns some of these errors silently.
+func diagnose(d *nodeDir) string {
+	var sb strings.Builder
+	ns := filepath.Join(d.root, "data", "default-0")
+	for _, sub := range []string{"wal-1", "snap-1", "rocksdb_backup", d.cfg.Engine} {
+		ents, err := os.ReadDir(filepath.Join(ns, sub))
+		sb.WriteString(fmt.Sprintf("%s: ", sub))
+		if err != nil {
+			sb.WriteString(err.Error())
+		}
+		for _, e := range ents {
+			sz := int64(-1)
+			if fi, err := e.Info(); err == nil {
+				sz = fi.Size()
+			}
+			sb.WriteString(fmt.Sprintf("%s(%d) ", e.Name(), sz))
+		}
+		sb.WriteString("\n")
+	}
+	snaps, err := wal.ValidSnapshotEntries(filepath.Join(ns, "wal-1"))
+	sb.WriteString(fmt.Sprintf("wal.ValidSnapshotEntries: %d markers, err=%v\n", len(snaps), err))
+	if len(snaps) > 0 {
+		sb.WriteString(fmt.Sprintf("  last marker: term %d index %d\n", snaps[len(snaps)-1].Term, snaps[len(snaps)-1].Index))
+	}
+	if sn, err := snap.New(filepath.Join(ns, "snap-1")).LoadNewestAvailable(snaps); err != nil {
+		sb.WriteString(fmt.Sprintf("snap.LoadNewestAvailable: err=%v\n", err))
+	} else {
+		sb.WriteString(fmt.Sprintf("snap.LoadNewestAvailable: term %d index %d\n", sn.Metadata.Term, sn.Metadata.Index))
+	}
+	return sb.String()
 }
 
 // rocksdbAssertArtifact: the sandbox's stock librocksdb is built with assertions enabled;
